@@ -18,6 +18,7 @@ class Profile:
         self.block_refs = False       # D9
         self.refs = True
         self.ref_families = True      # several refs to one target with complementary override sets (seed C04-5)
+        self.overlap_twins = True     # two readable views of one address, both ALLOW_ADDRESS_OVERLAP (seed C04-6)
         self.repeats = True
         self.blocks = True
         self.max_depth = 2
@@ -331,6 +332,25 @@ class Gen:
             r = rng.random()
             if r < 0.45:
                 out.append(self.register(cfg, reg_unsigned))
+                if p.overlap_twins and rng.random() < 0.15 and len(self.names) >= 2:
+                    # a second VIEW of the same address (legal when both allow the overlap), e.g. an RO status view and an
+                    # RW control view, or a repeat with stride 0: every one of them is an accessor of its own and an item
+                    # of its own in read_all_registers (seed C04-6 read each address once)
+                    first = out[-1]
+                    first["allow_address_overlap"] = True
+                    twin = self.register(cfg, reg_unsigned)
+                    self.next_addr["register"] -= 0      # (the twin's own allocation stays reserved: harmless)
+                    twin["address"] = first["address"]
+                    twin["allow_address_overlap"] = True
+                    if rng.random() < 0.4:
+                        twin["repeat"] = {"count": rng.choice([2, 3]), "stride": 0}
+                    elif twin.get("repeat") and first.get("repeat"):
+                        twin["repeat"] = dict(first["repeat"])
+                    else:
+                        twin["repeat"] = None
+                    if first.get("repeat") and twin["repeat"] is None and first["repeat"]["stride"] < 0:
+                        pass
+                    out.append(twin)
             elif r < 0.6 and p.commands:
                 out.append(self.command(cfg))
             elif r < 0.7 and p.buffers:
